@@ -1,6 +1,7 @@
 import KoordVerif.Common.Proto
 import KoordVerif.Model.C02
 import KoordVerif.Model.C02Scale
+import KoordVerif.Model.C02Glue
 /-
 Driver for C02.  Case =
   total <T>
@@ -9,6 +10,12 @@ Driver for C02.  Case =
 Output: `rt <name> <runtime>` sorted by name, then `end`.
 Scale-min ops (one parent per case): `sm upd <child> <min> <enable>`, `sm rem <child>`,
 `sm get <total> <child>` → `scaled <no|value> sums <enableSum> <disableSum>`.
+Declared-object blocks (spec harness; one parent, one dimension):
+  step <kind>                                       → `step <kind>` (history marker)
+  gtot <total> <dim> <gate> <scale>
+  gq <name> <lendLabel> <childReq> <alloc> <nmax> (<dim> <v>)* <nmin> (<dim> <v>)* <annClass> <nann> (<dim> <v>)*
+  grun → `in <name> <weight> <request> <min> <guarantee> <lend>` per child (the derived quotaNode), then
+         `rt <name> <runtime>` per child, both sorted by name, then `end`.
 -/
 namespace KoordVerif.C02
 open KoordVerif.Proto
@@ -22,6 +29,10 @@ structure DState where
   nodes : List Node := []
   out   : List String := []
   bad   : Bool := false
+  gdim  : Nat := 0
+  ggate : Bool := false
+  gscale : Bool := false
+  gqs   : List QDecl := []
 
 def insertByName (p : Nat × Int) : List (Nat × Int) → List (Nat × Int)
   | [] => [p]
@@ -29,8 +40,64 @@ def insertByName (p : Nat × Int) : List (Nat × Int) → List (Nat × Int)
 
 def sortByName (ps : List (Nat × Int)) : List (Nat × Int) := ps.foldr insertByName []
 
+/-- `<n> (<dim> <v>)*n` from the front of a token list. -/
+def takeRL : List Int → Option (RL × List Int)
+  | [] => none
+  | n :: rest =>
+    if n < 0 then none else
+    let k := n.toNat
+    if rest.length < 2 * k then none else
+    let body := rest.take (2 * k)
+    let rec pairs : List Int → Option RL
+      | [] => some []
+      | d :: v :: more => if d < 0 then none else (pairs more).map (fun l => (d.toNat, v) :: l)
+      | [_] => none
+    (pairs body).map (fun l => (l, rest.drop (2 * k)))
+
+def parseGq (ts : List Int) : Option QDecl :=
+  match ts with
+  | name :: label :: creq :: alloc :: rest =>
+    if name < 0 ∨ label < 0 ∨ label > 2 then none else
+    match takeRL rest with
+    | some (mx, rest1) =>
+      match takeRL rest1 with
+      | some (mn, cls :: rest2) =>
+        match takeRL rest2 with
+        | some (an, []) =>
+          let ann? : Option Ann :=
+            if cls = 0 then (if an = [] then some Ann.absent else none)
+            else if cls = 1 then (if an = [] then some Ann.invalid else none)
+            else if cls = 2 then some (Ann.parsed an) else none
+          ann?.map (fun a => { name := name.toNat, label := label.toNat, childReq := creq, alloc := alloc, max := mx, min := mn, ann := a })
+        | _ => none
+      | _ => none
+    | none => none
+  | _ => none
+
+def insertNode (p : Node) : List Node → List Node
+  | [] => [p]
+  | q :: qs => if p.name ≤ q.name then p :: q :: qs else q :: insertNode p qs
+
 def stepLine (s : DState) (line : String) : DState :=
   match toks line with
+  | ["step", k] => match nat? k with
+    | some k => { s with out := s.out ++ [s!"step {k}"] }
+    | none => { s with bad := true, out := s.out ++ ["bad-op"] }
+  | ["gtot", t, d, g, sc] =>
+    match int? t, nat? d, nat? g, nat? sc with
+    | some t, some d, some g, some sc =>
+      if g > 1 ∨ sc > 1 then { s with bad := true, out := s.out ++ ["bad-op"] }
+      else { s with total := t, gdim := d, ggate := g = 1, gscale := sc = 1, gqs := [] }
+    | _, _, _, _ => { s with bad := true, out := s.out ++ ["bad-op"] }
+  | "gq" :: rest =>
+    match (ints? rest).bind parseGq with
+    | some q => { s with gqs := s.gqs ++ [q] }
+    | none => { s with bad := true, out := s.out ++ ["bad-op"] }
+  | ["grun"] =>
+    let ns := (glueNodes floatShare s.ggate s.gscale s.total s.gdim s.gqs).foldr insertNode []
+    let rs := sortByName (glueRun floatShare s.ggate s.gscale s.total s.gdim s.gqs)
+    { s with out := s.out ++ ns.map (fun n => s!"in {n.name} {n.weight} {n.request} {n.min} {n.guarantee} {b2i n.lend}")
+                ++ rs.map (fun p => s!"rt {p.1} {p.2}") ++ ["end"], gqs := [], total := 0 }
   | ["total", t] => match int? t with
     | some t => { s with total := t }
     | none => { s with bad := true }
